@@ -38,6 +38,10 @@ chk("C13", "exploration", "The real main() is driven with every valid text of a 
 chk("C14", "exploration", "All expressions with throws and recovery operators up to N nodes (nesting, shared labels, throws in called rules, repetitions, predicates, recovery expressions that fail or throw again) x all inputs up to L are compared with a reference interpreter that keeps an explicit dynamic handler stack.", E1NOTE, T_ENUM, "4.C14")
 chk("C20", "exploration", "(a) every text of the bootstrap-subset AST family (plus single spelling deviations) that the hand-written bootstrap front-end accepts must be accepted by the generated front-end with a structurally identical AST; (b) make -B all in a scratch copy re-runs the three bootstrap stages and regenerates every artifact, all must be byte-identical.", HOOKNOTE + " bootstrap.Parser linked as a library; GNU make runs the Makefile's own recipes.", "bounded exhaustive enumeration of texts (two real front-ends compared) + complete regeneration of the finite artifact set", "4.C20")
 
+
+chk("C18", "model_checking", "Stateless model checking of the real runtime under a controlled scheduler: 2-3 real goroutines calling Parse on one loaded grammar, scheduling points at every pool Get/Put and block call (mode A, unbounded with state-key pruning, environment choice of what Get returns) and additionally at every parser-method entry / loop iteration (mode B, preemption bound 1, thorough 2); every execution is checked for isolation (observation == solo observation), pool discipline and an unchanged grammar value.", E1NOTE + " Memory-model effects between hooked operations are only covered by the free-running -race pass (sampling, supporting evidence).", "stateless model checking: controlled scheduler + DFS over schedules with preemption bound / state-key pruning on the real code; separate free-running race-detector pass", "4.C18")
+chk("C19", "model_checking", "Nondeterminism exploration of Go map iteration order on the real ast/builder code (type-directed overlay rewrite of all 24 range-over-map sites): every execution with <= 1 order deviation (<= 2 for small cases; all n! orders per site up to 4 keys) must give the same analysis result and emitted bytes; every ordered pair/triple of 6 requests in one process must answer like a fresh process; outcomes are bound to the uninstrumented binary.", HOOKNOTE + " Every permutation of a map's keys is taken to be a legal behaviour of the real implementation.", "explicit exploration of the nondeterministic choice space (map iteration orders, deviation bound 1-2) on the real code via source overlay; request-history enumeration", "4.C19")
+
 ALL = [f"C{i:02d}" for i in range(1, 21)]
 na = [dict(property_id=p, reason="check not built yet in this revision (planned in DESIGN.md section 4)") for p in ALL if p not in checks]
 hook_commits = subprocess.run(['git','-C','/repo','log','--format=%H','--grep=^verif hook'],capture_output=True,text=True).stdout.split()
